@@ -800,6 +800,21 @@ impl BigDecimal {
         }
 
         let uint = self.int_val.magnitude();
+
+        // the magnitude is rounded and the sign copied afterwards, so the
+        // direction-dependent modes are mirrored for negative numbers
+        let mirrored_ctx;
+        let ctx = match (self.sign(), ctx.rounding_mode()) {
+            (Sign::Minus, RoundingMode::Floor) => {
+                mirrored_ctx = ctx.with_rounding_mode(RoundingMode::Ceiling);
+                &mirrored_ctx
+            }
+            (Sign::Minus, RoundingMode::Ceiling) => {
+                mirrored_ctx = ctx.with_rounding_mode(RoundingMode::Floor);
+                &mirrored_ctx
+            }
+            _ => ctx,
+        };
         let result = arithmetic::inverse::impl_inverse_uint_scale(uint, self.scale, ctx);
 
         // always copy sign
